@@ -464,11 +464,19 @@ def _layouts(cfg, tier):
 
 SHAPES = {"n1": (1,), "n2": (2,), "b12": (1, 2), "b21": (2, 1)}
 
+SOFT_PROOF_LIMIT = {"psk": 32, "qam": 64}  # larger constellations: minutes of case analysis per bit -> bounded stand-in (C06.soft_large_bounded)
+
+
+def _tractable(c):
+    return mods.points(c) <= SOFT_PROOF_LIMIT.get(c[0], 64)
+
+
 
 def _hard_cfgs(tier):
     out = []
     for c in _schemes(tier):
-        out += with_variants([c], _layouts(c, tier))
+        if _tractable(c):
+            out += with_variants([c], _layouts(c, tier))
     return out
 
 
@@ -628,7 +636,7 @@ def soft_scaling(ctx, vcfg):
 
 # ================================================================================================ sign of the LLR vs hard decision
 def _sign_cfgs(tier):
-    return with_variants(_schemes(tier), ["n"])
+    return with_variants([c for c in _schemes(tier) if _tractable(c)], ["n"])
 
 
 @obligation("C06.soft_sign_agrees_with_hard", function=SOFT_FUNCS, configs=_sign_cfgs, max_paths=64, timeout_ms=60000)
@@ -1037,3 +1045,73 @@ def _lower(t):
     from vk.tensor import lower
 
     return lower(t)
+
+
+
+# ------------------------------------------------------------------------------------------------ large constellations, bounded
+def _large_cfgs(tier):
+    return [c for c in _schemes(tier) if not _tractable(c)]
+
+
+@obligation("C06.soft_large_bounded", function=SOFT_FUNCS, configs=_large_cfgs, kind="custom", engine="standin")
+def soft_large_bounded(spec, cfg, tier, seed):
+    """64-PSK / 256-QAM: nearest-point hard decision, max-log identity at unit variance and sign-vs-hard agreement evaluated natively on a dense grid over and beyond
+    the bounding box, on every midpoint between neighbouring points +- eps, and at seeded random points (the
+    scaling with the noise variance IS proved for these constellations: C06.soft_scaling)"""
+    t0 = time.time()
+    sc = Scheme(cfg)
+    kappa, _ = read_kappa(cfg)
+    C = [complex(float(c[0]), float(c[1])) for c in sc.table(0)]
+    L = sc.labels
+    rng = random.Random(seed * 19 + 5)
+    ext = 1.3 * max(max(abs(c.real), abs(c.imag)) for c in C) + 0.5
+    g = 61 if tier == "quick" else 121
+    pts = [complex(-ext + 2 * ext * i / (g - 1), -ext + 2 * ext * j / (g - 1)) for i in range(g) for j in range(g)]
+    for i, a in enumerate(C):  # decision boundaries between nearest neighbours
+        near = sorted(range(len(C)), key=lambda j: abs(C[j] - a))[1:5]
+        for j in near:
+            mid, dirn = (a + C[j]) / 2, (C[j] - a) / abs(C[j] - a)
+            for e in (-1e-3, 0.0, 1e-3):
+                pts.append(mid + e * dirn)
+    pts += [complex(rng.gauss(0, ext / 2), rng.gauss(0, ext / 2)) for _ in range(2000)]
+    y = torch.tensor(pts, dtype=torch.complex128).to(torch.complex64)
+    with torch.no_grad():
+        soft = sc.dem(y, torch.tensor(1.0)).reshape(len(pts), sc.b).to(torch.float64)
+        hard = sc.dem(y).reshape(len(pts), sc.b)
+    yy = y.to(torch.complex128)
+    Ct = torch.tensor(C, dtype=torch.complex128)
+    d = (yy.unsqueeze(1) - Ct.unsqueeze(0)).abs() ** 2
+    Lt = torch.tensor(L)
+    fails = {"hard_label_is_a_nearest_point": None, "maxlog_identity_unit_variance": None, "sign_agrees_with_hard": None}
+    dmin = d.min(dim=1).values
+    for i in range(len(pts)):
+        lab = [j for j in range(sc.n) if L[j] == [int(round(float(v))) for v in hard[i]]]
+        if not lab or float(d[i, lab[0]]) > float(dmin[i]) + 1e-5 * (1 + float(dmin[i])):
+            fails["hard_label_is_a_nearest_point"] = {"y": [pts[i].real, pts[i].imag], "hard": [int(v) for v in hard[i]]}
+            break
+    for k in range(sc.b):
+        d1 = d[:, Lt[:, k] == 1].min(dim=1).values
+        d0 = d[:, Lt[:, k] == 0].min(dim=1).values
+        want = float(kappa) * (d1 - d0)
+        scale = 1 + d1 + d0
+        bad = ((soft[:, k] - want).abs() > 1e-4 * scale).nonzero().reshape(-1)
+        if len(bad) and fails["maxlog_identity_unit_variance"] is None:
+            i = int(bad[0])
+            fails["maxlog_identity_unit_variance"] = {"y": [pts[i].real, pts[i].imag], "bit": k, "llr": float(soft[i, k]), "expected": float(want[i]), "kappa": str(kappa)}
+        tol = 1e-4 * scale
+        bad = (((soft[:, k] > tol) & (hard[:, k] != 0)) | ((soft[:, k] < -tol) & (hard[:, k] != 1))).nonzero().reshape(-1)
+        if len(bad) and fails["sign_agrees_with_hard"] is None:
+            i = int(bad[0])
+            fails["sign_agrees_with_hard"] = {"y": [pts[i].real, pts[i].imag], "bit": k, "llr": float(soft[i, k]), "hard": [int(v) for v in hard[i]]}
+    res = []
+    for name, fail in fails.items():
+        r = ObResult(prop="C06", ob=f"{spec.id}/{name}", config=str(cfg), function=spec.function, engine="standin", backend="native", kind="bounded")
+        r.verdict = "discharged" if fail is None else "refuted"
+        r.paths = len(pts)
+        r.queries = len(pts)
+        r.witness = fail
+        r.replay_confirmed = None if fail is None else True
+        r.detail = f"bounded: {len(pts)} received points ({g}x{g} grid over 1.3x the bounding box, midpoints to the 4 nearest neighbours of every point +-1e-3, 2000 seeded random); the symbolic proof of these two clauses needs minutes of case analysis per bit for this constellation size; kappa={kappa}"
+        r.wall_s = round(time.time() - t0, 2)
+        res.append(r)
+    return res
